@@ -873,3 +873,37 @@ Proof.
     + apply (Hwf hl). right. exact Hhl.
 Qed.
 Print Assumptions sum_files_wf.
+
+(** * C16: copy / sum-copy never panic on a represented destination *)
+Theorem copy_core_no_panic F sh sl dest o until now d logs :
+  (match dest with Some _ => opened dest
+   | None => match create (co_method o) (co_xff o) (co_layout o) with Some fresh => Some (sync fresh) | None => None end end) = Some d ->
+  Rel_all (hd_arcs d) logs -> 1 <= hd_method d <= 6 ->
+  wf_layout_full (layout_of (hd_arcs d)) -> clock_ok (layout_of (hd_arcs d)) now ->
+  0 <= co_from o < 2^32 -> 0 <= until < 2^32 -> co_from o <= until -> Forall series_wf sl ->
+  r_status (copy_core F (RdOk sh sl) dest o until now) <> StPanic.
+Proof.
+  intros Hd HRA Hm Hwff Hclock Hfrom Huntil Hfu Hswf.
+  unfold copy_core.
+  destruct (create (co_method o) (co_xff o) (co_layout o)) as [fresh|] eqn:Ecreate; [|cbn; discriminate].
+  assert (Hd0 : match dest with Some _ => opened dest | None => Some (sync fresh) end = Some d) by (destruct dest; exact Hd).
+  rewrite Hd0.
+  destruct (fetch_ts_list (hd_arcs d) (co_archive o) (co_from o) until now) as [| |dl] eqn:Edl.
+  - cbn; discriminate.
+  - exfalso.
+    assert (Hcases : co_archive o = -1 \/ 0 <= co_archive o < zlen (hd_arcs d) \/ ~ (co_archive o = -1 \/ 0 <= co_archive o < zlen (hd_arcs d))) by lia.
+    destruct Hcases as [Ha|[Ha|Ha]].
+    + destruct (fetch_ts_list_elems (hd_arcs d) logs (co_archive o) (co_from o) until now HRA Hwff Hclock Hfrom Huntil Hfu (or_introl Ha)) as (l & Hl & _). congruence.
+    + destruct (fetch_ts_list_elems (hd_arcs d) logs (co_archive o) (co_from o) until now HRA Hwff Hclock Hfrom Huntil Hfu (or_intror Ha)) as (l & Hl & _). congruence.
+    + unfold fetch_ts_list, ArchiveIDAll in Edl. destruct (Z.eqb_spec (co_archive o) (-1)); [lia|].
+      destruct (Z.leb_spec 0 (co_archive o)); destruct (Z.ltb_spec (co_archive o) (zlen (hd_arcs d))); cbn [andb] in Edl; try discriminate. lia.
+  - destruct (negb (layout_eqb (layout_of_arcs (hd_arcs sh)) (layout_of_arcs (hd_arcs d)))); [cbn; discriminate|].
+    destruct (negb (all_eq_range_step sl dl)) eqn:Eeq; [cbn; discriminate|]. apply negb_false_iff in Eeq.
+    pose proof (fetch_ts_list_ok_aid _ _ _ _ _ _ Edl) as Haid.
+    destruct (tsl_diff (co_copy_nan o) sl dl) as [sdif ddif] eqn:Ediff.
+    destruct (all_empty sdif && all_empty ddif); [cbn; discriminate|].
+    destruct (copy_equalizes F d logs sl dl (co_archive o) (co_from o) until now (co_copy_nan o) Hm HRA Hwff Hclock Hfrom Huntil Hfu Haid Edl Eeq Hswf)
+      as (arcs' & logs' & dl' & Hres & _).
+    rewrite Ediff in Hres. cbn [fst] in Hres. rewrite Hres. cbn. discriminate.
+Qed.
+Print Assumptions copy_core_no_panic.
